@@ -51,13 +51,22 @@ def _call(c, return_samples=True, via_object=False):
     return (implutil.strict_env if c.get('strict') else implutil.quiet)(compute_features, sig, fs, (implutil.frange(c) if not c.get('npopt') else [np.float64(v) for v in c['f_range']]), center_extrema=c['center'], burst_method=c['method'],
                           burst_kwargs=bk, threshold_kwargs=th, find_extrema_kwargs=fek, return_samples=return_samples)
 
+def _long_recording():
+    r = np.random.default_rng(3); n = 72000
+    env = 0.6 + 0.4 * np.sin(2 * np.pi * 0.13 * np.arange(n) / 1000.0)          # slowly waxing and waning rhythm on noise, quantised like an ADC
+    return np.round((env * np.sin(2 * np.pi * 10 * np.arange(n) / 1000.0) + 0.3 * r.standard_normal(n)) * 200) / 200
+
 def corpus(ctx):
     s = gen.make_signal(np.random.default_rng(5), family='bursty', fs=500, f0=10)
     base = dict(kind='signal', sig=proto.arr2hex(s['sig']), fs=500, f_range=[7.0, 13.0], boundary=None, pad=None, bk=None, th=None, family='bursty')
     return [dict(base, fk=None, center='peak', method='cycles'),                       # pre-fix A: read-only mask
             dict(base, fk={'n_seconds': 0.5}, center='peak', method='cycles'),         # pre-fix B: n_seconds + n_cycles=3
             dict(base, fk={'n_seconds': 0.5}, center='trough', method='amp'),
-            dict(base, fk={'n_cycles': 4}, center='trough', method='cycles', boundary=20)]
+            dict(base, fk={'n_cycles': 4}, center='trough', method='cycles', boundary=20),
+            # directed: a LONG recording (72 s at 1000 Hz, about 720 cycles, sample indices beyond 2^16) through the whole chain and the composed model
+            dict(kind='signal', sig=proto.arr2hex(_long_recording()), fs=1000, f_range=[7.0, 13.0], boundary=None, pad=None, bk=None, fk=None, center='peak', method='cycles',
+                 th={'amp_fraction_threshold': 0.2, 'amp_consistency_threshold': 0.4, 'period_consistency_threshold': 0.45, 'monotonicity_threshold': 0.6, 'min_n_cycles': 2},
+                 family='long')]
 
 def generate(ctx):
     rng = ctx.rng
